@@ -270,6 +270,11 @@ public:
     Builder& operator=(const Builder&) = delete;
     void setHeaderFields(const BuildFields& f);
     void setData(const BuildData& d);
+    // setData whose arguments are the object's OWN views (pointers returned by its getters): how 0 everything as it is
+    // (a no-op), how 1 a prefix of its own data / its own stream ids with external vendor data that is not longer than
+    // the old one (no growth, so no reallocation: the views stay valid during the call on a correct library).
+    // Returns false (nothing done) for classes / states where that is not a defined use.
+    bool setDataAliased(int how, const BuildData& d);
     // copy assignment between two payload objects of the same class
     void assignFrom(const Builder& other);
     Bytes raw() const;
